@@ -301,6 +301,15 @@ func runC18(op int, toks []Tok) Outcome {
 		if back == nil || abs64(int64(*back)-d) > 1 || (d > 0 && *back < 0) || (d < 0 && *back > 0) {
 			o.Fail = "offset not recovered within 1 ns"
 		}
+		// reading the offset is an accessor: a second read, and what the extension serialises to, are unchanged
+		wireBefore, _ := rtp.NewAbsCaptureTimeExtensionWithCaptureClockOffset(time.Unix(0, u), time.Duration(d)).Marshal()
+		again := a.EstimatedCaptureClockOffsetDuration()
+		wireAfter, _ := a.Marshal()
+		if back != nil && (again == nil || *again != *back) {
+			o.Fail = fmt.Sprintf("a second read of the offset returns %v, the first returned %v", again, *back)
+		} else if !bytes.Equal(wireBefore, wireAfter) {
+			o.Fail = fmt.Sprintf("reading the offset changed what the extension serialises to: %x, before %x", wireAfter, wireBefore)
+		}
 	default:
 		panic("bad op")
 	}
